@@ -21,7 +21,8 @@ RULE = ("patterns are PRINTED from ASTs of the documented grammar (the model re-
         "changes between records (TZ switched among JST-9, EST5, Asia/Kolkata, UTC0, America/St_Johns): a local date "
         "must follow the zone of the moment it is rendered; (g) 44 (thorough 232) patterns containing {m} encoded while the "
         "message argument's own Display impl encodes another record through a {m} pattern on the same thread "
-        "(re-entrant encode: both outputs must be what they are without the nesting). thorough: debug AND release harness builds. "
+        "(re-entrant encode: both outputs must be what they are without the nesting); (h) 24 (96) aligned patterns "
+        "encoded after three records whose message FAILED half-way inside aligned fields on the same thread. thorough: debug AND release harness builds. "
         "non-trivial = the pattern contains a formatter and the AST is well-formed for the positive theorem; "
         "distinct = distinct case line")
 ASSUMPTIONS = [
@@ -332,6 +333,17 @@ def cases(rng, tier):
             c = mk(rng, tier, seq, envsel=env)
             c[0] = 6
             out.append(c)
+    # (h) after records whose message failed half-way inside right- / left-aligned, truncated and highlighted fields
+    # on the same thread (mode 9), every kind of aligned field renders its own record only
+    for env in envs:
+        for seq in ([lit("["), fmt("m", (), spec(1, (None, 1), "9")), lit("]")],
+                    [fmt("", [[fmt("l"), lit(" "), fmt("m")]], spec(1, ("*", 1), "14", "20"))],
+                    [fmt("h", [[fmt("m", (), spec(1, ("~", 1), "6"))]]), lit("|"), fmt("t", (), spec(1, (None, 1), "8"))],
+                    [fmt("m", (), spec(1, (None, 0), "7")), lit("|"), fmt("l", (), spec(1, ("0", 1), "7", "7"))]):
+            for k in range(3 if tier == "quick" else 12):
+                c = mk(rng, tier, seq, envsel=env)
+                c[0] = 9
+                out.append(c)
     out.extend(tz_switch_cases(rng, tier, envs))
     return out
 
